@@ -19,11 +19,12 @@
 #define NS (CS_MAXP * CS_MAXP)
 
 enum { F_TRL, F_UTHROUGH, F_TRLM, F_UREFLECT1, F_UREFLECT2, F_CORR,
-    F_PARTIAL16, F_TRLX, F_RECT, F_NFAM };
+    F_PARTIAL16, F_TRLX, F_RECT, F_CORRV, F_NFAM };
 static const char *fname[F_NFAM] = { "TRL(analytic)", "unknown-through",
     "TRL+match(LM)", "unknown-reflect-1port", "unknown-reflects-2port",
     "correlated-repeat", "unknown+single-reflect-16term",
-    "TRL-with-mismatched-line", "unknown-line-rectangular" };
+    "TRL-with-mismatched-line", "unknown-line-rectangular",
+    "correlated-with-known-vector" };
 
 static const vnacal_type_t types[8] = {
     VNACAL_T8, VNACAL_U8, VNACAL_TE10, VNACAL_UE10,
@@ -290,6 +291,38 @@ static int build(cs_scenario *sc, int fam, vnacal_type_t type, int net,
 	std_push(sc, CSE_LINE, 2, 1, 2, ln);
 	std_push(sc, CSE_LINE, 2, 1, 2, ll);
 	unk[(*nunk)++] = L;
+	break;
+    }
+    case F_CORRV: {
+	/* a reflect known from its data sheet as a tabulated (frequency
+	   dependent) parameter; the connected part is declared as
+	   correlated with it (sigma 0.01) and happens to equal it; an
+	   unknown through makes the system non-linear */
+	cs_param p; memset(&p, 0, sizeof(p));
+	p.kind = CSP_VECTOR; p.c0 = -0.93 + 0.12 * I; p.c1 = 0.15 - 0.1 * I;
+	p.c2 = 0.2; p.npts = 7; p.lo = 0.9; p.hi = 1.1;
+	int V = add_par(sc, p);
+	memset(&p, 0, sizeof(p));
+	p.kind = CSP_CORRELATED; p.c0 = -0.93 + 0.12 * I;
+	p.c1 = 0.15 - 0.1 * I; p.c2 = 0.2; p.other = V; p.sigma = 0.01;
+	int C = add_par(sc, p);
+	int T = par_unknown(sc, 0.9 * cexp(-0.35 * I), -0.03 * I, guess);
+	int r[3] = { ps, po, pm };
+	int tt[4] = { -1, T, T, -1 };
+	int a = par_scalar(sc, 0.10 + 0.05 * I);
+	int b = par_scalar(sc, 0.35 - 0.606 * I);
+	int c = par_scalar(sc, 0.33 - 0.58 * I);
+	int d = par_scalar(sc, -0.08 + 0.10 * I);
+	int ln[4] = { a, b, c, d };
+	for (int pp = 1; pp <= 2; ++pp)
+	    for (int k = 0; k < 3; ++k)
+		std_push(sc, CSE_SINGLE, 1, pp, 0, &r[k]);
+	std_push(sc, CSE_LINE, 2, 1, 2, tt);
+	std_push(sc, CSE_LINE, 2, 1, 2, ln);
+	std_push(sc, CSE_SINGLE, 1, 1, 0, &C);
+	std_push(sc, CSE_SINGLE, 1, 2, 0, &C);
+	unk[(*nunk)++] = T;
+	unk[(*nunk)++] = C;
 	break;
     }
     case F_PARTIAL16: {
